@@ -31,6 +31,10 @@ GenCoreConfs == Reg(0..5, 1..3, {-1}, {<<0, FALSE>>}, {TRUE}, {"none"}, {"else"}
 \* declared descriptors, mount / refusal / fall-back decisions, no partial acceptance, no faults
 GenDeclConfs == Reg({0, 1, 3}, {2}, {-1, 2}, {<<0, FALSE>>, <<2, TRUE>>}, BOOLEAN, Decls, {"else", "repo"}, {"query"})
                 \cup Oci(0..3, Decls)
+\* declared size smaller / larger than the stream, on and off chunk boundaries, with no digest,
+\* the digest of the stream, or the digest of the prefix that has the declared size
+GenSizeConfs == Reg(2..5, 1..3, {-1, 2}, {<<0, FALSE>>}, BOOLEAN,
+                    {"sizeonlyplus", "sizeonlyminus", "prefix", "sizeplus", "sizeminus"}, {"else"}, {"query"})
 \* the large space for random behaviours
 GenConfs == Reg(0..7, 1..3, {-1, 2, 4}, MinsT, BOOLEAN, Decls, {"else", "repo"}, {"plain", "query", "move"})
             \cup Oci(0..4, Decls)
